@@ -13,7 +13,7 @@
                                    callbacks 0 .. n-1 in registration order. *)
 From Coq Require Import ZArith List Bool.
 From Coq Require String.
-From CV Require Import Base.Val Base.Bytes Base.Tys Gen.EmcyTables Model.Emcy Proofs.Emcy_proofs.
+From CV Require Import Base.Val Base.Bytes Base.Tys Gen.EmcyTables Model.Emcy Proofs.Emcy_proofs Gen.Src Proofs.Src_eq_nmt_emcy.
 Import ListNotations.
 Open Scope Z_scope.
 
@@ -162,6 +162,11 @@ Example C16_nv_wait :
   wait_scan None [] ws = Some e1 /\ wait_scan (Some 20480) [] ws = None.
 Proof. vm_compute. repeat split; reflexivity. Qed.
 
+(* Tie to the source text: the error-reset test of EmcyConsumer.on_emcy as translated from the CURRENT source
+   by tools/py2coq.py (Gen/Src.v, regenerated on every run) is the model's is_reset_code. *)
+Theorem C16_source_reset_test_is_model : forall code, src_emcy_is_reset code = is_reset_code code.
+Proof. exact src_emcy_is_reset_eq. Qed.
+
 Print Assumptions C16_decode_layout.
 Print Assumptions C16_malformed_ignored.
 Print Assumptions C16_log_mirrors.
@@ -180,3 +185,4 @@ Print Assumptions C16_wait_next_match.
 Print Assumptions C16_wait_handed_first_match.
 Print Assumptions C16_wait_nothing.
 Print Assumptions C16_wait_schedule_independent.
+Print Assumptions C16_source_reset_test_is_model.
